@@ -6,6 +6,7 @@ import ElfioVerif.Props.C02
 import ElfioVerif.Props.C08
 namespace ElfioVerif.C03
 open Gen
+open Sv
 
 /-! ### 1. records: what the writer emits is the specification encoding, field by field -/
 
